@@ -4,9 +4,9 @@ case-split boundaries of the proofs (12/13, 268/269, 65804/65805, per-option lim
 KNOWN = [1, 3, 4, 5, 6, 7, 8, 9, 11, 12, 14, 15, 16, 17, 19, 20, 23, 27, 28, 31, 35, 39, 60, 252,
          258, 292]
 LIMITS = {1: (0, 8), 3: (1, 255), 4: (1, 8), 5: (0, 0), 6: (0, 3), 7: (0, 2), 8: (0, 255),
-          9: (0, 255), 11: (0, 255), 12: (0, 2), 14: (0, 4), 15: (1, 255), 16: (1, 1), 17: (0, 2),
-          20: (0, 255), 23: (0, 3), 27: (0, 3), 28: (0, 4), 35: (1, 1034), 39: (1, 255),
-          60: (0, 4), 252: (0, 40), 258: (0, 1), 292: (0, 8)}
+          9: (0, 255), 11: (0, 255), 12: (0, 2), 14: (0, 4), 15: (0, 255), 16: (1, 1), 17: (0, 2),
+          19: (0, 3), 20: (0, 255), 23: (0, 3), 27: (0, 3), 28: (0, 4), 31: (0, 3), 35: (1, 1034),
+          39: (1, 255), 60: (0, 4), 252: (1, 40), 258: (0, 1), 292: (0, 8)}
 BND_NUM = [0, 1, 2, 12, 13, 14, 24, 25, 26, 268, 269, 270, 281, 282, 537, 538, 539, 2048, 65000,
            65534, 65535]
 BND_LEN = [0, 1, 2, 3, 4, 5, 8, 9, 12, 13, 14, 40, 41, 255, 256, 268, 269, 270, 1034, 1035]
@@ -131,6 +131,71 @@ def gen_build_case(r, allow_big=True):
 def line_of(hdr, ops):
     return " ".join(hdr + [t for o in ops for t in o])
 
+
+
+FRAME_BND = [0, 1, 11, 12, 13, 14, 267, 268, 269, 270, 65803, 65804, 65805, 65806, 65807]
+
+
+def gen_framelen_case(r, target=None, proto=None):
+    """a build case whose options+marker+payload length is exactly a boundary of the RFC 8323
+    Len forms (0..12 | 13..268 | 269..65804 | 65805..): the four length-header forms of TCP/TLS"""
+    target = r.choice(FRAME_BND) if target is None else target
+    proto = proto or r.choice(["tcp", "tcp", "tcp", "ws", "udp"])
+    tl = r.choice([0, 1, 8, 12, 13, 268, 269])
+    opts = []
+    body = 0
+    prev = 0
+    for n in sorted(r.sample([3, 8, 11, 15, 20, 2048, 65000], r.choice([0, 1, 2, 3]))):
+        ln = r.choice([0, 1, 12, 13])
+        sz = len(py_opt(n - prev, bytes(ln)))
+        if body + sz > target:
+            break
+        opts.append(["O", str(n), btok(r, ln)])
+        body += sz
+        prev = n
+    rest = target - body
+    ops = [["T", btok(r, tl)]] + opts
+    if rest >= 2:
+        ops.append(["D", btok(r, rest - 1)])
+    elif rest == 1 and not opts:
+        ops.append(["O", "0", "-"])
+    code = r.choice([1, 2, 69, 68])
+    hdr = ["c01", proto, str(r.randrange(4)), str(code), str(r.randrange(65536)), "0"]
+    return hdr, ops
+
+
+def gen_bins_case(r):
+    """coap_insert_option on a parsed datagram: (old delta, new delta) of the following option
+    aimed at all six classes of the header patch, value lengths of both options on the
+    extension boundaries, payload present or not"""
+    prev = r.choice([0, 0, 1, 11, 300, 2000])
+    d_old = r.choice([1, 2, 12, 13, 14, 20, 268, 269, 270, 300, 1000, 40000])
+    nxt = prev + d_old
+    if nxt > 65535:
+        nxt = 65535
+        d_old = nxt - prev
+    d_new = r.choice([1, 2, 12, 13, 14, 268, 269, 270, d_old, max(1, d_old - 1), r.randint(1, d_old)])
+    d_new = max(1, min(d_new, d_old))
+    n = nxt - d_new
+    opts = []
+    if prev and r.random() < 0.8:
+        opts.append((prev, rbytes(r, r.choice([0, 1, 13]))))
+        if r.random() < 0.3:
+            opts.append((prev, rbytes(r, 2)))
+    elif prev:
+        d_old = nxt
+        n = max(0, nxt - d_new)
+    opts.append((nxt, rbytes(r, r.choice([0, 1, 12, 13, 14, 268, 269, 270]))))
+    if r.random() < 0.5:
+        opts.append((nxt + r.choice([0, 1, 13, 269]), rbytes(r, r.choice([0, 3]))))
+    opts = [(k, v) for k, v in opts if k <= 65535]
+    payload = rbytes(r, r.choice([0, 0, 1, 5, 300]))
+    tok = rbytes(r, r.choice([0, 1, 8, 13, 269]))
+    msg = py_serialize("udp", r.randrange(4), r.choice([1, 2, 69]), r.randrange(65536), tok, opts, payload)
+    vl = r.choice([0, 1, 12, 13, 14, 268, 269, 270])
+    if r.random() < 0.1:
+        n = r.choice([nxt, nxt + 1, 65535])      # not below max_opt: the append path
+    return "bins %s %d %s" % (msg.hex(), n, btok(r, vl))
 
 # ---------------------------------------------------------------- byte strings for C03 / C02
 
